@@ -62,9 +62,3 @@ Definition pinned_decls_shell : list string :=
 
 Definition ok_shell : Prop :=
   of_file fst "shell.go" InvShell.inventory = pinned_shell /\ of_file (fun s => s) "shell.go" InvShell.decls = pinned_decls_shell.
-
-Lemma C15_inventory_shell : InvShell.files = pinned_files /\ ok_shell.
-Proof. unfold ok_shell; repeat split; vm_compute; reflexivity. Qed.
-
-Lemma C16_inventory_shell : InvShell.files = pinned_files /\ ok_shell.
-Proof. unfold ok_shell; repeat split; vm_compute; reflexivity. Qed.
